@@ -336,6 +336,9 @@ class Weaver:
             label = "%s %s" % (kind, arg if not isinstance(arg, tuple) else " #".join(str(a) for a in arg if a is not None))
             if kind == "fn_start":
                 add_after(bo, "\n" + text, label)
+            elif kind == "tail_unit":
+                # end of a function that returns (): right before the closing brace (robust against removed statements)
+                add_before(bc, text, label)
             elif kind == "tail":
                 # R16: bind the tail expression so that a proof block can follow it
                 ts = self._tail_start(bo, bc)
